@@ -202,6 +202,68 @@ def reassigned_charset(ctx, cs_a, cs_b, seed):
         restore_default()
 
 
+def long_text_case(ctx, cs, n_ascii):
+    """Text payloads beyond 64 KiB with multi-byte characters sitting across the 65 536-byte mark."""
+    case = {'kind': 'long-text', 'charset': cs, 'ascii_prefix': n_ascii}
+    hi = [c for c in alphabet(cs) if len(c.encode(cs)) > 1 or ord(c) > 127][:3] or ['x']
+    text = 'a' * n_ascii + ''.join(hi) * 40
+    mid = MidiFile(charset=cs)
+    mid.tracks.append(MidiTrack([MetaMessage('lyrics', text=text, time=1), MetaMessage('track_name', name=text[:70000])]))
+    try:
+        buf = io.BytesIO()
+        mid.save(file=buf)
+        d = smf.decode_file(buf.getvalue())
+        got = [bytes(e[3]) for e in d['tracks'][0] if e[0] == 'meta' and e[2] in (5, 3)]
+        ctx.check('file payload == text.encode(charset)', got == [text.encode(cs), text[:70000].encode(cs)],
+                  f'long-text-payload:{cs}', case, [len(g) for g in got])
+        back = MidiFile(file=io.BytesIO(buf.getvalue()), charset=cs)
+        ctx.check('loaded text == original', back.tracks[0][0].text == text and back.tracks[0][1].name == text[:70000],
+                  f'long-text-loaded:{cs}', case, None)
+    except Exception as exc:
+        ctx.fail('loaded text == original', f'long-text:{type(exc).__name__}:{cs}', case, f'{type(exc).__name__}: {str(exc)[:100]}')
+        restore_default()
+    check_probe(ctx, 'default charset after successful call', 'leak-after-long-text', case)
+
+
+def context_manager_case(ctx, cs):
+    """MidiFile is also a context manager ("kept around since it was used in examples"): the charset
+    must not be in force inside or after the block, nor after a bare __enter__()."""
+    case = {'kind': 'with-block', 'charset': cs}
+    mid = MidiFile(charset=cs)
+    mid.tracks.append(MidiTrack([MetaMessage('text', text='x')]))
+    try:
+        with mid as m:
+            ctx.check('default charset after successful call', probe() is None and m is mid, 'leak-inside-with-block', case, probe())
+            mid.save(file=io.BytesIO())
+            ctx.check('default charset after successful call', probe() is None, 'leak-inside-with-block-after-save', case, probe())
+        check_probe(ctx, 'default charset after successful call', 'leak-after-with-block', case)
+        try:
+            with MidiFile(charset=cs):
+                raise KeyError('consumer fails')
+        except KeyError:
+            pass
+        check_probe(ctx, 'default charset after failed call', 'leak-after-failing-with-block', case)
+        MidiFile(charset=cs).__enter__()
+        check_probe(ctx, 'default charset after successful call', 'leak-after-bare-enter', case)
+        g = iter(MidiFile(file=io.BytesIO(_tiny_file()), charset=cs))
+        next(g)
+        check_probe(ctx, 'default charset after successful call', 'leak-while-iterating', case)
+        p = MidiFile(file=io.BytesIO(_tiny_file()), charset=cs).play(now=lambda: 0.0)
+        next(p)
+        check_probe(ctx, 'default charset after successful call', 'leak-while-playing', case)
+    except Exception as exc:
+        ctx.fail('default charset after successful call', f'with-block:{type(exc).__name__}', case, repr(exc))
+        restore_default()
+
+
+def _tiny_file():
+    mid = MidiFile()
+    mid.tracks.append(MidiTrack([Message('note_on', time=0), Message('note_off', time=0)]))
+    b = io.BytesIO()
+    mid.save(file=b)
+    return b.getvalue()
+
+
 class FaultyFile:
     """File object whose k-th read()/write() raises OSError."""
 
@@ -384,6 +446,20 @@ def run(ctx):
         reassigned_charset(ctx, a, b, f'{ctx.seed}:{a}:{b}')
         ctx.nontrivial(('reassign', a, b))
         n += 1
+    multibyte = [c for c in CHARSETS if c not in ('latin1', 'ascii', 'cp1252', 'cp437', 'iso8859-15', 'koi8-r')]
+    k = 0
+    for ci, cs in enumerate(multibyte):
+        for oi, off in enumerate((65533, 65534, 65535, 65536)):
+            if (ci * 4 + oi) % N == sh and (ctx.tier == 'thorough' or oi in (1, 2)):
+                long_text_case(ctx, cs, off)
+                ctx.nontrivial(('long-text', cs, off))
+                k += 1
+    for ci, cs in enumerate(CHARSETS):
+        if cs != 'latin1' and ci % N == sh:
+            context_manager_case(ctx, cs)
+            ctx.nontrivial(('with', cs))
+            k += 1
+    n += k
     # classic faults
     nf = 2 if ctx.tier == 'quick' else 60
     for ci, cs in enumerate(CHARSETS):
@@ -418,6 +494,10 @@ def replay(ctx, case):
     k = case['kind']
     if k == 'roundtrip':
         roundtrip(ctx, case['charset'], case['seed'])
+    elif k == 'long-text':
+        long_text_case(ctx, case['charset'], case['ascii_prefix'])
+    elif k == 'with-block':
+        context_manager_case(ctx, case['charset'])
     elif k == 'reassign':
         reassigned_charset(ctx, case['a'], case['b'], case['seed'])
     elif k == 'faults':
